@@ -96,14 +96,23 @@ u32 X_snprintf(u8 *dst, u64 cap, u8 *fmt, ...)
   return tot;
 }
 static int64_t strtol_value(u8 *s);
-u64 X_strtol(u8 *s, u8 *end, u32 base) { (void)end; (void)base; return (u64)strtol_value(s); }
+static u32 strtol_consumed, strtol_erange;           /* how many characters the number took; whether the value saturated (errno = ERANGE) */
+static u32 env_errno;
+u8 *X___errno_location(void) { return (u8 *)&env_errno; }
+u64 X_strtol(u8 *s, u8 *end, u32 base)
+{
+  (void)base;
+  int64_t v = strtol_value(s);
+  if (end) *(u8 **)end = s + strtol_consumed;
+  if (strtol_erange) env_errno = 34;             /* ERANGE */
+  return (u64)v;
+}
 u32 X_atoi(u8 *s) { return (u32)strtol_value(s); }
 static u64 file_size_value;
 u64 X__ZNSt10filesystem9file_sizeERKNS_7__cxx114pathE(u8 *p) { (void)p; return file_size_value; }
 void X__ZNSt10filesystem7__cxx114path14_M_split_cmptsEv(u8 *p) { (void)p; }
 void X__ZNSt10filesystem7__cxx114path5_ListC1Ev(u8 *p) { *(u8 **)p = 0; }
 void X__ZNKSt10filesystem7__cxx114path5_List13_Impl_deleterclEPNS2_5_ImplE(u8 *d, u8 *i) { (void)d; (void)i; }
-void X__ZSt28__throw_bad_array_new_lengthv(void) { CHECK(0, "throws bad_array_new_length"); ASSUME(0); }
 /* strlog(std::string, std::string, char): diagnostics are counted, not formatted */
 void stub_strlog(u8 *s1, u8 *s2, u8 fill) { (void)s1; (void)s2; (void)fill; diag++; }
 void X_exit(u32 status)
@@ -112,7 +121,7 @@ void X_exit(u32 status)
   ASSUME(0);                                   /* the process ends here with a non-zero status; Settings prints to stderr before every exit */
 }
 #define DIAG_BEGIN() ((void)0)
-#define DIAG_END() ((void)0)
+#define DIAG_END() CHECK(ir2c_exc == 0, "an exception escapes to the caller (std::terminate: the program aborts)")
 #else
 /* =================================================== native replay against the real build */
 #include <unistd.h>
@@ -132,17 +141,21 @@ void global_ctors(void) {}
 #ifndef ARGLEN
 #define ARGLEN 24
 #endif
-struct in_t { u8 c; u8 arg[ARGLEN + 1]; u8 mode, ctype, htype, noecho, has_fp, has_out, has_key, fopen_ok; u64 size, fsize; int32_t num; } IN;
+struct in_t { u8 c; u8 arg[ARGLEN + 1]; u8 mode, ctype, htype, noecho, has_fp, has_out, has_key, fopen_ok; u64 size, fsize; int64_t num; u8 consumed, erange; } IN;
 static u8 ARG[ARGLEN + 1];
 #if MODEL
 static int fopen_outcome(u8 *name, int wr) { (void)wr; CHECK(name == ARG, "fopen is given the option's argument"); return IN.fopen_ok != 0; }
-static int64_t strtol_value(u8 *s) { CHECK(s == ARG, "the number is parsed from the option's argument"); return (int64_t)IN.num; }
+static int64_t strtol_value(u8 *s) { CHECK(s == ARG, "the number is parsed from the option's argument"); return IN.num; }      /* strtol: any long (saturation included) */
 #endif
 void harness(void)
 {
   LOAD_INPUTS();
   int c = (int)(signed char)IN.c, mode = (int)(signed char)IN.mode, ct = (int)(signed char)IN.ctype, ht = (int)(signed char)IN.htype;
   ASSUME(inv_ok(mode, ct, ht));
+  /* strtol contract: consumes a prefix; no digits -> 0; saturates with ERANGE */
+  ASSUME(IN.consumed <= ARGLEN && (IN.consumed != 0 || IN.num == 0));
+  ASSUME(!IN.erange || IN.num == INT64_MAX || IN.num == INT64_MIN);
+  int numeric = ARGLEN >= 1 && IN.consumed == ARGLEN;       /* the whole argument is a number (anything else: atoi semantics, outside the claim) */
 #ifdef OPTC
   ASSUME(c == OPTC);              /* option code concrete per query ... */
 #else
@@ -165,13 +178,19 @@ void harness(void)
   F_IN = envf_open_in(inbytes, 8); F_OUT = envf_open_out(64);
   file_size_value = IN.fsize;
   u64 exp_size = IN.fsize;
+  strtol_consumed = IN.consumed; strtol_erange = IN.erange != 0;
   { extern u64 env_strlen_hint; extern u8 *env_strlen_hint_ptr; env_strlen_hint = ARGLEN; env_strlen_hint_ptr = ARG; }      /* the argument's length is the concrete parameter ARGLEN */
 #else
   /* native: the argument is a real path / number text in the (fresh) working directory */
-  static char numtxt[16];
+  static char numtxt[48];
   u64 exp_size = 8;
-  for (u32 i = 0; i < ARGLEN; i++) if (ARG[i] == '/') ARG[i] = '_';
-  if (c == 1 || c == 2) { snprintf(numtxt, sizeof numtxt, "%d", (int)IN.num); argp = (u8 *)numtxt; }
+  if (c == 'i' || c == 'o') for (u32 i = 0; i < ARGLEN; i++) if (ARG[i] == '/') ARG[i] = '_';      /* a file name in the scratch directory */
+  if (c == 1 || c == 2) {
+    if (IN.erange) snprintf(numtxt, sizeof numtxt, "%s99999999999999999999", IN.num < 0 ? "-" : "");
+    else if (IN.consumed == 0) snprintf(numtxt, sizeof numtxt, "x");
+    else snprintf(numtxt, sizeof numtxt, "%lld%s", (long long)IN.num, numeric ? "" : "x");
+    argp = (u8 *)numtxt;
+  }
   if (c == 'i' && IN.fopen_ok) put_file((char *)ARG, inbytes, 8);
   if (c == 'o' && !IN.fopen_ok) mkdir((char *)ARG, 0700);               /* fopen(dir, "wb+") fails */
 #endif
@@ -189,6 +208,7 @@ void harness(void)
   else if (c == 1) exp_ok = ct == -1 && IN.num >= 0 && IN.num <= 4;
   else if (c == 2) exp_ok = ht == -1 && IN.num >= 0 && IN.num <= 2;
   else exp_ok = 0;
+  if ((c == 1 || c == 2) && !numeric) exp_ok = r != 0 && exp_ok;      /* non-numeric text: rejecting is always fine, accepting only what the number rule allows */
   CHECK((r != 0) == (exp_ok != 0), "an option is accepted exactly when: one mode only / the file opens / the key text is 22 symbols + \"==\" / the mode number is in range and given once / the option is known");
   if (!r) CHECK(diag > diag0, "a rejected option prints a diagnostic");
   if (r) {
@@ -280,6 +300,7 @@ void harness(void)
   F_IN = envf_open_in(inbytes, 8); F_OUT = envf_open_out(64);
   u8 *argv[2] = {(u8 *)"Wencry", 0};
   u8 *ret = vf_get_v_opt(2, (u8 *)argv);
+  DIAG_END();
 #else
   /* native: a real option vector that leads the real parser to the state S (or contains a rejected option) */
   static char ctxt[8], htxt[8];
@@ -413,6 +434,7 @@ void harness(void)
   vf_pak_set(PAK, has_fp ? PRE_IN : 0, IN.has_out ? PRE_OUT : 0, IN.has_key ? PRE_KEY : 0, IN.size, (u32)mode, (u32)ct, (u32)ht, IN.noecho != 0);
   u8 *argv[3] = {(u8 *)"Wencry", (u8 *)"x", 0};
   u32 ret = vf_main(2, (u8 *)argv);
+  DIAG_END();
 #else
   native_files();
   static char ctxt[8], htxt[8], m[3] = "-e";
@@ -479,9 +501,10 @@ static int fopen_outcome(u8 *name, int wr)
 }
 static int64_t strtol_value(u8 *s)
 {
-  u32 i = 0; int neg = 0; int64_t v = 0;
+  u32 i = 0, nd = 0; int neg = 0; int64_t v = 0;
   if (s[i] == '-') { neg = 1; i++; }
-  for (; i < 12 && s[i] >= '0' && s[i] <= '9'; i++) v = v * 10 + (s[i] - '0');
+  for (; i < 12 && s[i] >= '0' && s[i] <= '9'; i++, nd++) v = v * 10 + (s[i] - '0');
+  strtol_consumed = nd ? i : 0; strtol_erange = 0;
   return neg ? -v : v;
 }
 u32 X_getopt_long(u32 argc, u8 *argv, u8 *so, u8 *lo, u8 *idx)
@@ -528,6 +551,7 @@ void harness(void)
   { extern u64 env_strlen_hint; extern u8 *env_strlen_hint_ptr; env_strlen_hint = WPATHLEN; env_strlen_hint_ptr = (u8 *)SYMPATH; }
   u8 *argv[2] = {(u8 *)"Wencry", 0};
   u32 ret = vf_main(1 + NSEQ, (u8 *)argv);
+  DIAG_END();
 #else
   native_files();
   { u8 b[8] = {0}; put_file(LONGPATH, b, 8); put_file(SYMPATH, b, 8); }
